@@ -36,3 +36,8 @@ PROBES = list(PROBES) + ["output-names-held-longer-files:junk", "output-names-he
 
 # dimensions added in seeded round 10
 RULE = RULE + " Round 10: W4 - one raw data write transfers at most 1-1000 bytes in 5/8 of the runs (never fires on the pinned tree)."
+
+
+# every child process of this property (workers, the determinism worker, replays, warm-up) may use up to 4 numba threads;
+# a scenario runs on 1 unless it says otherwise ("numba_threads", see sim.core._set_numba_threads)
+CHILD_ENV = {"NUMBA_NUM_THREADS": "4"}
